@@ -183,3 +183,9 @@ Fixpoint runs_clean (ws : str) (l : list atom) : bool :=
   | AC c :: r => if is_space c then runs_clean (ws ++ [c]) r else wsclean ws && runs_clean [] r
   | AI _ :: r => wsclean ws && runs_clean [] r
   end.
+
+(** * Specials sequences of ONE character that no other sequence extends ([~], [&]) *)
+Definition solo (cx : context) (c : N) : bool :=
+  existsb (str_eqb [c]) (map fst (cx_specials cx))
+  && forallb (fun sc : str => match sc with d :: t => negb (N.eqb d c) || is_nil t | [] => true end)
+             (map fst (cx_specials cx)).
